@@ -14,7 +14,7 @@ import (
 
 var opaqueHelpers = map[string]bool{
 	"mcap.Writer.writeRecord": true, "mcap.Writer.writeSummarySection": true, "mcap.Writer.flushActiveChunk": true, "mcap.Writer.ensureSized": true,
-	"mcap.makeSafe": true, "mcap.newCRCWriter": true, "mcap.newCountingCRCWriter": true, "mcap.newWriteSizer": true, "mcap.loadChunk": true,
+	"mcap.makeSafe": true, "mcap.newCRCWriter": true, "mcap.newCountingCRCWriter": true, "mcap.newWriteSizer": true, "mcap.loadChunk": true, "mcap.Lexer.loadChunk": true,
 }
 
 func (p *Program) transparent(g *ssa.Function) bool {
